@@ -23,14 +23,14 @@ CHECK_DEADLOCK FALSE
 
 def mc_cfg(mode, **kw):
     d = dict(Alphabet="{0}", MaxLen=0, Prefixes="{0}", StoreKinds='{"plain"}', MaxKeys=1, KeyDomain="{0}", MaxSeq=0,
-             NEntries=1, SizeBeforeAssign="FALSE")
+             NEntries=1, SizeBeforeAssign="FALSE", Radix=4)
     d.update(kw)
     spec = "FairSpec" if mode == "find" else "Spec"
     inv = {"order": "WriterOrderIsReaderOrder", "find": "FindSound FindComplete LoopInv ModesAgree FindBounded",
            "refs": "RefsAreFinal HandlesAreFinal"}[mode]
     props = "PROPERTIES FindTerminates\n" if mode == "find" else ""
     return """CONSTANTS
-  Radix = 4
+  Radix = %s
   NDigits = 3
   SignedRule = "minmax"
   Mode = "%s"
@@ -46,7 +46,7 @@ def mc_cfg(mode, **kw):
 SPECIFICATION %s
 INVARIANTS %s Replay
 %sCHECK_DEADLOCK FALSE
-""" % (mode, d["Alphabet"], d["MaxLen"], d["Prefixes"], d["StoreKinds"], d["MaxKeys"], d["KeyDomain"], d["MaxSeq"],
+""" % (d["Radix"], mode, d["Alphabet"], d["MaxLen"], d["Prefixes"], d["StoreKinds"], d["MaxKeys"], d["KeyDomain"], d["MaxSeq"],
        d["NEntries"], d["SizeBeforeAssign"], spec, inv, props)
 
 
